@@ -31,7 +31,7 @@ Has(r, f) == f \in DOMAIN r
 S0(salt0) == [
   pst |-> [k \in K |-> "none"], ppong |-> [k \in K |-> FALSE], pcancel |-> [k \in K |-> FALSE],
   loopOut |-> FALSE, ended |-> FALSE, endReq |-> FALSE,
-  told |-> {salt0}, stored |-> {}, now |-> 0, prev |-> salt0, everValid |-> {},
+  told |-> {salt0}, stored |-> {}, storedSince |-> {}, now |-> 0, prev |-> salt0, everValid |-> {},
   rst |-> [k \in K |-> "none"], icancel |-> [k \in K |-> FALSE],
   due |-> [k \in K |-> -1], nbad |-> [k \in K |-> 0], resent |-> [k \in K |-> 0],
   accN |-> {}, deliv |-> {}, named |-> {}, must |-> {}, upds |-> {}, allUpds |-> {}, seenUpd |-> {},
@@ -122,7 +122,7 @@ Step ==
      /\ s' = s
   \/ /\ Ev.ev = "srv" /\ Settled
      /\ LET m == Ev.msg
-            live == HAcc(Ev)
+            live == HAcc(Ev) /\ ~s.ended     \* nothing is processed once Run has returned
             eff == IF live THEN Eff(m) ELSE {}
             pg == IF live THEN Pongs(m) ELSE {}
             ses == IF live THEN Sessions(m) ELSE {}
@@ -135,6 +135,9 @@ Step ==
              !.ppong = [k \in K |-> @[k] \/ (k \in pg /\ s.pst[k] = "sent")],
              !.loopOut = IF 0 \in pg THEN FALSE ELSE @,
              !.stored = @ \cup newSalts,
+             \* Invoke answers bad_server_salt for its pending request by discarding the saved future salts (salts.Reset)
+             \* before it adopts the salt the server named: what was stored before may be gone
+             !.storedSince = IF firstBad # {} \/ secondBad # {} THEN newSalts ELSE @ \cup newSalts,
              !.accN = IF live /\ Has(Ev, "n") THEN @ \cup {Ev.n} ELSE @,
              !.everValid = @ \cup {f.salt : f \in {g \in (s.stored \cup newSalts) : g.until > s.now + 300}},
              !.told = IF ses # {} THEN ses ELSE (IF bs # {} THEN (IF firstBad # {} THEN {e.salt : e \in firstBad} ELSE @ \cup {e.salt : e \in bs}) ELSE @),
@@ -155,7 +158,7 @@ Step ==
         /\ (Check = "C41") =>
               /\ \/ Ev.salt \in s.told
                  \/ Ev.salt \in {f.salt : f \in valid}
-                 \/ (valid = {} /\ Ev.salt \in (s.everValid \cup {s.prev}))
+                 \/ ({f \in s.storedSince : f.until > Ev.now + 300} = {} /\ Ev.salt \in (s.everValid \cup {s.prev}))
               /\ resend => /\ s.due[Ev.k] # -1 /\ Ev.salt = s.due[Ev.k] /\ Ev.sameid /\ s.resent[Ev.k] = 0
         \* frames are observed in the order they were WRITTEN; ids and sequence numbers are assigned earlier,
         \* in one critical section, and concurrent senders may reach the wire in either order.  So uniqueness
